@@ -28,7 +28,11 @@ RULE = (
     "fields with falsy values: size 0, nfiles 0, isexec/isdir False, empty strings, 2^63-1; sometimes "
     "unserialised fields inode/mtime/nlink), HashInfo (names md5, md5-dos2unix, sha256, etag, checksum, "
     "None/''; values hex, hex.dir, etag-like, ''/None; obj_name), loaded in {None, True, False}; plus "
-    "deletions, the forms to run and, for SQLite, a split into two sessions (reopen and continue writing). "
+    "deletions, rewrites of a key with an entry that differs from the stored one ONLY in Meta.remote (the "
+    "one field that is serialised but declared eq=False, so both entries compare equal), 'fetch the entry, "
+    "mutate one serialised field in place, store it again under its key' steps, the forms to run and, for "
+    "SQLite, a split into two sessions (reopen and continue writing; rewrites fall in the same or the next "
+    "session). "
     "Oracle: expected projection (key, serialised meta fields, {name: value}, loaded) computed from the "
     "spec by the documented rule (size/nfiles when not None, the other fields when truthy) versus the "
     "projection read attribute-wise from what comes back; key sets equal, entries equal one by one; the "
@@ -204,12 +208,36 @@ def arm_db(model, order, d, viols):
     compare_index("db", model, got, viols)
 
 
+def mutate_entry(entry, field, value):
+    from dvc_data.hashfile.meta import Meta
+
+    if field == "loaded":
+        entry.loaded = value
+    elif entry.meta is None:
+        entry.meta = Meta(**{field: value})
+    else:
+        setattr(entry.meta, field, value)
+
+
+def mutated_spec(spec, field, value):
+    if field == "loaded":
+        return dict(spec, loaded=value)
+    return dict(spec, meta={**(spec["meta"] or {}), field: value})
+
+
 def apply_ops(index, ops, model):
     for op in ops:
         key = tuple(op["key"])
         if op["op"] == "set":
             index[key] = build_entry(op)
             model[key] = op
+        elif op["op"] == "mutate":
+            if key in model:
+                # fetch the entry, change one serialised field in place, store it again under its key
+                entry = index[key]
+                mutate_entry(entry, op["field"], op["value"])
+                index[key] = entry
+                model[key] = mutated_spec(model[key], op["field"], op["value"])
         elif key in model:
             del index[key]
             del model[key]
@@ -320,7 +348,9 @@ def arm_tree(model, hash_name, order, viols):
 # ------------------------------------------------------------------------------------------
 def validate(case):
     for op in case["ops"]:
-        assert op["op"] in ("set", "del")
+        assert op["op"] in ("set", "del", "mutate")
+        if op["op"] == "mutate":
+            assert op["field"] == "loaded" or op["field"] in SERIALISED
         for p in op["key"]:
             assert isinstance(p, str) and p and "/" not in p and "\0" not in p, op["key"]
         if op["op"] == "set":
@@ -343,10 +373,23 @@ def final_model(ops, drop_root):
             if key not in model:
                 order.append(key)
             model[key] = op
+        elif op["op"] == "mutate":
+            if key in model:
+                model[key] = mutated_spec(model[key], op["field"], op["value"])
         elif key in model:
             del model[key]
             order.remove(key)
     return model, order
+
+
+def only_remote_differs(old, new):
+    """The two specs give entries that compare equal (Meta.remote is eq=False) yet serialise differently."""
+    if old is None or old["meta"] is None or new["meta"] is None:
+        return False
+    strip = lambda m: {k: v for k, v in m.items() if k != "remote"}  # noqa: E731
+    return (old["hash"] == new["hash"] and old["loaded"] == new["loaded"]
+            and strip(old["meta"]) == strip(new["meta"])
+            and ref_meta(old["meta"]).get("remote") != ref_meta(new["meta"]).get("remote"))
 
 
 def run_case(case, ctx):
@@ -393,13 +436,34 @@ def run_case(case, ctx):
     if n_tree:
         classes.append("tree-hash=" + case.get("tree_hash", "md5"))
     seen = set()
-    for op in ops:
+    cur, written_at = {}, {}
+    split = case.get("split", 0) if 0 < case.get("split", 0) < len(ops) else 0
+    for n, op in enumerate(ops):
         k = tuple(op["key"])
         if op["op"] == "set" and k in seen:
             classes.append("overwrite")
         if op["op"] == "del" and k in seen:
             classes.append("delete")
         seen.add(k)
+        same_session = k in written_at and (written_at[k] < split) == (n < split)
+        where = "same-session" if same_session else "next-session"
+        if op["op"] == "set":
+            if only_remote_differs(cur.get(k), op):
+                classes.append("overwrite:only-remote-differs")
+                if "sqlite" in forms:
+                    classes.append(f"sqlite:eq-equal-rewrite:{where}")
+            cur[k] = op
+            written_at[k] = n
+        elif op["op"] == "mutate":
+            if k in cur:
+                classes.append("mutate-in-place")
+                if "sqlite" in forms:
+                    classes.append(f"sqlite:mutate-in-place:{where}")
+                cur[k] = mutated_spec(cur[k], op["field"], op["value"])
+                written_at[k] = n
+        else:
+            cur.pop(k, None)
+            written_at.pop(k, None)
     keys = sorted(judged)
     if any(a != b and b[:len(a)] == a for a in keys for b in keys):
         classes.append("entry-on-proper-prefix")
@@ -491,12 +555,18 @@ _FORMS = st.sampled_from([
     ["sqlite"], ["sqlite"], ["db"], ["json", "db", "sqlite", "tree"],
 ])
 _EXTRA = st.tuples(
-    st.lists(st.tuples(st.sampled_from(["dup", "prefix", "del", "child", "root"]), st.integers(0, 7),
-                       st.integers(0, 9)), max_size=3),
+    st.lists(st.tuples(st.sampled_from(["dup", "prefix", "del", "child", "root", "remote", "remote", "mutate",
+                                        "mutate"]),
+                       st.integers(0, 7), st.integers(0, 9)), max_size=4),
     _FORMS,
     st.integers(0, 8),
     st.sampled_from(TREE_HASH_NAMES),
 )
+
+
+REMOTES = ["backup", "origin", "my remote"]
+MUTATIONS = [("size", 0), ("size", 7), ("nfiles", 0), ("isexec", True), ("remote", "backup"), ("remote", ""),
+             ("md5", HEX[0]), ("etag", "e2"), ("version_id", "v2"), ("loaded", False)]
 
 
 @st.composite
@@ -520,6 +590,18 @@ def cases(draw):
             if len(base["key"]) > 3:
                 continue
             new = dict(other, key=[*base["key"], "child"])
+        elif kind == "remote":
+            # rewrite of a key with an entry that differs ONLY in Meta.remote (eq=False but serialised)
+            prev = final_model(ops, drop_root=False)[0].get(tuple(base["key"]), base)
+            meta = dict(prev["meta"] or {})
+            old_remote = meta.get("remote") or None
+            meta["remote"] = None if pos % 4 == 0 else REMOTES[pos % len(REMOTES)]
+            if meta["remote"] == old_remote:
+                meta["remote"] = "backup" if old_remote != "backup" else "origin"
+            new = dict(prev, op="set", key=base["key"], meta=meta)
+        elif kind == "mutate":
+            field, value = MUTATIONS[pos % len(MUTATIONS)]
+            new = {"op": "mutate", "key": base["key"], "field": field, "value": value}
         else:
             new = {"op": "del", "key": base["key"]}
         ops = ops[:] + [new]
